@@ -602,6 +602,13 @@ func (u *Unit) applyContract(fr *Frame, st *State, con *Contract, fn *ssa.Functi
 	for _, cl := range con.get("ensures") {
 		u.assume(st.guard, u.evalIn(penv, cl))
 	}
+	// postconditions that are assumed at call sites but are not obligations of the
+	// callee (physical bounds such as "a stream is shorter than 2^61 bytes"); every
+	// use is reported in the evidence file
+	for _, cl := range con.get("ensures-assumed") {
+		u.assume(st.guard, u.evalIn(penv, cl))
+		u.noteHavoc("assumed postcondition of " + name + ": " + cl.text)
+	}
 	switch len(results) {
 	case 0:
 		return Tuple{}
@@ -693,7 +700,12 @@ func (u *Unit) havocLoc(env *Env, st *State, e ast.Expr, name string) {
 			panic(u.errf("modifies *%T", p))
 		}
 	case *ast.SelectorExpr:
-		base := env.eval(x.X)
+		var base Val
+		if ref, ok := env.evalLoc(x.X); ok {
+			base = ref
+		} else {
+			base = env.eval(x.X)
+		}
 		bt := env.typeOf(x.X)
 		if pt, ok := bt.Underlying().(*types.Pointer); ok {
 			bt = pt.Elem()
